@@ -527,13 +527,20 @@ def extended_components(ptype, p):
 
 
 def reference_image(N, psf, ptype, p):
-    """independent reference: Σ components, pixel-integrated, convolved spatially with the stamp centred on its geometric centre"""
+    """independent reference: Σ components, pixel-integrated, convolved spatially with the stamp centred on its geometric centre.
+
+    For an even stamp side s the geometric centre (s−1)/2 lies between two pixels: out(x) = Σ_j psf[j]·I(x − (j − (s−1)/2)).
+    `convolve2d(mode='same')` puts the kernel origin at index s/2 − 1 for even s, i.e. half a pixel below the geometric
+    centre, so along such an axis the intrinsic image is evaluated for a source displaced by −1/2 pixel (an exact,
+    analytic shift of the pixel-integrated profile — no interpolation)."""
     from scipy.signal import convolve2d
-    intr = sum(reference_intrinsic(N, c) for c in extended_components(ptype, p) if c["flux"] != 0)
     psf = np.asarray(psf, float)
+    dy = -0.5 if (psf.shape[0] % 2 == 0) else 0.0
+    dx = -0.5 if (psf.shape[1] % 2 == 0) else 0.0
+    comps = [dict(c, xc=c["xc"] + dx, yc=c["yc"] + dy) for c in extended_components(ptype, p) if c["flux"] != 0]
+    intr = sum(reference_intrinsic(N, c) for c in comps)
     if psf.shape == (1, 1):
         return intr * psf[0, 0]
-    assert psf.shape[0] % 2 == 1 and psf.shape[1] % 2 == 1, "reference convolution uses odd stamps"
     return convolve2d(intr, psf, mode="same", boundary="fill")
 
 
